@@ -142,6 +142,7 @@ package dhcpd
 //@   ensures added: err == nil ==> wfTable(s) && len(s.leases) == old(len(s.leases)) + 1 && s.leases[len(s.leases) - 1] == l && (l.IP in s.ipIndex) && s.ipIndex[l.IP] == l
 //@   ensures others-kept: err == nil ==> (forall k int :: {mark(k)} 0 <= k && k < old(len(s.leases)) ==> s.leases[k] == old(s.leases[k]))
 //@   ensures failed-unchanged: err != nil ==> s.leases == old(s.leases) && wfTable(s) && !(l.IP in s.ipIndex)
+//@   ensures new-address-marked: err == nil && lastOffOK ==> bits[bkey(s.leasedOffsets, lastOff)]
 //@   ensures still-one-lease-per-client: old(macUnique(s)) && old(macAbsent(s, l)) ==> macUnique(s)
 //@   ensures failed-one-lease-per-client: err != nil && old(macUnique(s)) ==> macUnique(s)
 //@   modifies *
@@ -231,6 +232,8 @@ package dhcpd
 //@   requires new-object: forall k int :: {mark(k)} 0 <= k && k < len(s.leases) ==> s.leases[k] != l
 //@   ensures table-ok: wfTable(s)
 //@   ensures one-lease-per-client: macUnique(s)
+//@   ensures new-address-marked: err == nil && lastOffOK ==> bits[bkey(s.leasedOffsets, lastOff)]
+//@   ensures went-through-the-table-operations: err == nil ==> (l.IP in s.ipIndex) && s.ipIndex[l.IP] == l
 //@   modifies *
 
 // Restoring the table (start-up / restart): the host name of a reservation comes back exactly as stored - only dynamic
